@@ -1,23 +1,72 @@
-use hv_sim::{interp::run_case, model::*};
+use std::path::PathBuf;
+
+use hv_sim::{driver::*, model::Family, sim::install_panic_hook};
+
+fn usage() -> ! {
+    eprintln!("usage: hv check <Cxx> quick|thorough | hv worker <Cxx> <seed> <cases> <big> <out> | hv replay <file> [--quiet] | hv stats <Cxx> <n> [big] [seed] [show]");
+    std::process::exit(2)
+}
 
 fn main() {
-    let case = Case {
-        family: Family::C01,
-        actors: vec![ActorSpec { kind: 0, spawn: SpawnSpec::Build{mailbox: Mailbox::Bounded(1), strategy: Strategy::Default, timeout: None, fail_on_timeout: false, owning: true}, parent: None, beh: Behavior{ started: vec![Step::AddTimer(TimerSpec{kind: TimerKind::Interval, ticks: 5, work: vec![]})], ..Default::default()}, peer: None }],
-        default_beh: vec![Behavior::default(), Behavior::default()],
-        grants: vec![Grant { client: 0, actor: 0, kind: HKind::Owning }, Grant { client: 1, actor: 0, kind: HKind::Sender }],
-        clients: vec![
-            vec![ClientOp::Call { h: 0, work: vec![Step::Sleep(12)] }, ClientOp::Send { h: 0, work: vec![] }, ClientOp::Ping{h:0}, ClientOp::Consume{h:0}],
-            vec![ClientOp::Send { h: 0, work: vec![Step::Yield] }, ClientOp::Send { h: 0, work: vec![] }, ClientOp::Send { h: 0, work: vec![] }],
-        ],
-        faults: vec![],
-        schedule: vec![0, 200, 100, 7],
-        settle: 10,
-    };
-    let out = std::thread::spawn(move || run_case(&case)).join().unwrap();
-    for e in &out.hist {
-        println!("{:4} t={:3} task={:?} {:?}", e.stamp, e.time, e.task, e.kind);
+    let args: Vec<String> = std::env::args().collect();
+    if args.len() < 2 {
+        usage();
     }
-    println!("{:?}", out.flags);
-    for (i, t) in out.tasks.iter().enumerate() { println!("task {i}: {:?}", t); }
+    install_panic_hook();
+    match args[1].as_str() {
+        "check" => {
+            let fam = args.get(2).and_then(|s| Family::parse(s)).unwrap_or_else(|| usage());
+            let tier = args.get(3).map(String::as_str).unwrap_or("quick");
+            std::process::exit(run_parent(fam, tier));
+        }
+        "worker" => {
+            if args.len() < 7 {
+                usage();
+            }
+            let fam = Family::parse(&args[2]).unwrap_or_else(|| usage());
+            let seed: u64 = args[3].parse().unwrap_or_else(|_| usage());
+            let cases: u32 = args[4].parse().unwrap_or_else(|_| usage());
+            let big = args[5] == "1";
+            let out = worker(fam, seed, cases, big);
+            std::fs::write(&args[6], serde_json::to_string(&out).unwrap()).expect("write worker output");
+        }
+        "replay" => {
+            let file = PathBuf::from(args.get(2).unwrap_or_else(|| usage()));
+            let quiet = args.iter().any(|a| a == "--quiet");
+            let rep = match read_replay(&file) {
+                Ok(r) => r,
+                Err(e) => {
+                    eprintln!("{e}");
+                    std::process::exit(2);
+                }
+            };
+            match replay(&rep, 16) {
+                ReplayResult::Reproduced(v) => {
+                    if !quiet {
+                        println!("VIOLATION property={} replay={} signature={}", rep.property, file.display(), v.sig);
+                        println!("{}", v.detail);
+                    }
+                    std::process::exit(1);
+                }
+                ReplayResult::NotReproduced => {
+                    if !quiet {
+                        println!("not reproduced: property {} held on this case", rep.property);
+                    }
+                }
+                ReplayResult::HarnessError(e) => {
+                    eprintln!("HARNESS-ERROR: {e}");
+                    std::process::exit(2);
+                }
+            }
+        }
+        "stats" => {
+            let fam = args.get(2).and_then(|s| Family::parse(s)).unwrap_or_else(|| usage());
+            let n: u32 = args.get(3).and_then(|s| s.parse().ok()).unwrap_or(1000);
+            let big = args.get(4).is_some_and(|s| s == "1");
+            let seed: u64 = args.get(5).and_then(|s| s.parse().ok()).unwrap_or(1);
+            let show: usize = args.get(6).and_then(|s| s.parse().ok()).unwrap_or(3);
+            gen_stats(fam, n, big, seed, show);
+        }
+        _ => usage(),
+    }
 }
